@@ -132,6 +132,9 @@ pub struct Case {
     /// the frames of the later exchange are the replies of a second chain (sent after the first stream is done)
     /// instead of being received one by one
     pub second_chain: bool,
+    /// the transport answers `Pending` this many times before it takes the chain's write (a peer that is
+    /// slow to read) - while every reply the script delivers up front is already waiting to be read
+    pub wpp: usize,
 }
 
 impl Case {
@@ -140,7 +143,7 @@ impl Case {
             "kinds": self.kinds.iter().map(|k| match k { Kind::Plain => "plain", Kind::Oneway => "oneway", Kind::More => "more" }).collect::<Vec<_>>(),
             "replies": self.replies.iter().map(|r| json!([r.tag, r.is_error, r.continues, r.pad])).collect::<Vec<_>>(),
             "trailing": self.trailing.iter().map(|r| json!([r.tag, r.is_error, r.continues, r.pad])).collect::<Vec<_>>(),
-            "cuts": self.cuts, "trailing_later": self.trailing_later, "cancel_next": self.cancel_next, "pendings": self.pendings, "history": self.history, "pad": self.pad, "second_chain": self.second_chain})
+            "cuts": self.cuts, "trailing_later": self.trailing_later, "cancel_next": self.cancel_next, "pendings": self.pendings, "history": self.history, "pad": self.pad, "second_chain": self.second_chain, "wpp": self.wpp})
     }
     pub fn from_replay(r: &Value) -> Case {
         let reps = |v: &Value| -> Vec<Rep> {
@@ -157,6 +160,7 @@ impl Case {
             history: r["history"].as_u64().unwrap_or(0) as u8,
             pad: r["pad"].as_u64().unwrap_or(0) as usize,
             second_chain: r["second_chain"].as_bool().unwrap_or(false),
+            wpp: r["wpp"].as_u64().unwrap_or(0) as usize,
         }
     }
     fn hash(&self) -> u64 {
@@ -167,7 +171,7 @@ impl Case {
         for c in &self.cuts {
             h = fnv_mix(h, *c as u64);
         }
-        fnv_mix(h, self.trailing_later as u64 * 4 + self.cancel_next as u64 * 2 + self.pendings as u64 * 8 + self.history as u64 * 64 + self.second_chain as u64 * 1024 + ((self.pad as u64) << 12))
+        fnv_mix(h, self.trailing_later as u64 * 4 + self.cancel_next as u64 * 2 + self.pendings as u64 * 8 + self.history as u64 * 64 + self.second_chain as u64 * 1024 + ((self.pad as u64) << 12) + ((self.wpp as u64) << 40))
     }
 }
 
@@ -191,7 +195,11 @@ pub struct Outcome {
     pub ended: bool,
     pub stalled_waiting: bool,
     pub read_polls: usize,
+    /// read polls made before `send` returned (a transport that is slow to take the write may legitimately be
+    /// read from meanwhile; waiting for a reply only starts with the stream)
+    pub read_polls_during_send: usize,
     pub read_polls_idle: usize,
+    pub read_polls_idle_during_send: usize,
     pub leftovers: Vec<String>,
     pub leftover_stalled: bool,
 }
@@ -223,7 +231,11 @@ pub fn execute(case: &Case) -> Outcome {
         for (i, k) in case.kinds.iter().enumerate().skip(1) {
             chain = chain.append(&call_padded(*k, i as u32, case.pad)).expect("enqueue");
         }
-        let stream = vnet::block_on(chain.send(), 4).expect("virtual write never pends").expect("send");
+        wire.borrow_mut().write_pending_polls = case.wpp;
+        let stream = vnet::block_on(chain.send(), 4 + 2 * case.wpp).expect("the virtual write completes after the scripted number of polls").expect("send");
+        wire.borrow_mut().write_pending_polls = 0;
+        out.read_polls_during_send = wire.borrow().read_polls;
+        out.read_polls_idle_during_send = wire.borrow().read_polls_when_empty;
         let mut stream = core::pin::pin!(stream);
         let max_items = case.replies.len() + 3;
         let budget = (case.pendings + 1) * (case.cuts.len() + 2) + 4;
@@ -337,7 +349,7 @@ fn check(case: &Case, rep: &mut Report) {
     let all_oneway = case.kinds.iter().all(|k| *k == Kind::Oneway);
     if all_oneway {
         rep.count("chains_owing_nothing");
-        if o.read_polls > 0 {
+        if o.read_polls > o.read_polls_during_send {
             rep.violation("C06/chain-owing-nothing-reads-from-the-transport", format!("{} read polls, stalled={}; {}", o.read_polls, o.stalled_waiting, desc()), case.replay());
             return;
         }
@@ -365,7 +377,7 @@ fn check(case: &Case, rep: &mut Report) {
     }
     // never read while nothing is owed any more: idle read polls must be zero when the stream
     // ended by itself and all bytes were queued up front
-    if o.read_polls_idle > 0 && case.trailing_later {
+    if o.read_polls_idle > o.read_polls_idle_during_send && case.trailing_later {
         // trailing bytes were not queued yet, so any idle poll happened while waiting beyond the owed replies
         rep.violation("C06/stream-polled-the-transport-beyond-the-last-owed-reply", format!("{} idle read polls; {}", o.read_polls_idle, desc()), case.replay());
         return;
@@ -462,8 +474,12 @@ pub fn run(cfg: &Cfg) -> Report {
                             continue;
                         }
                         // with trailing frames in the same burst only cut inside the owed part
-                        let case = Case { kinds: kinds.clone(), replies: replies.clone(), trailing: trailing.clone(), cuts: cuts.clone(), trailing_later, cancel_next: v % 3 == 2, pendings: if v % 3 == 2 { 1 } else { 0 }, history: if rng.chance(1, 2) { 0 } else { rng.range(1, 7) as u8 }, pad: 0, second_chain: false };
+                        let case = Case { kinds: kinds.clone(), replies: replies.clone(), trailing: trailing.clone(), cuts: cuts.clone(), trailing_later, cancel_next: v % 3 == 2, pendings: if v % 3 == 2 { 1 } else { 0 }, history: if rng.chance(1, 2) { 0 } else { rng.range(1, 7) as u8 }, pad: 0, second_chain: false, wpp: 0 };
                         let mut case = case;
+                        if rng.chance(1, 4) {
+                            case.wpp = rng.range(1, 3);
+                            rep.count("chains_whose_write_is_taken_late");
+                        }
                         // the later exchange as a chain of its own (its frames must then be final replies)
                         if !case.trailing.is_empty() && case.trailing.iter().all(|t| t.continues != Some(true)) && rng.chance(1, 2) {
                             case.second_chain = true;
@@ -523,7 +539,12 @@ pub fn run(cfg: &Cfg) -> Report {
             }
             _ => random_cuts(&mut rng, owed_len, 40),
         };
-        let case = Case { kinds, replies, trailing, cuts, trailing_later: rng.chance(1, 2), cancel_next: k % 5 == 4, pendings: if k % 5 == 4 { 1 } else { 0 }, history: if rng.chance(1, 2) { 0 } else { rng.range(1, 7) as u8 }, pad: 0, second_chain: false };
+        let case = Case { kinds, replies, trailing, cuts, trailing_later: rng.chance(1, 2), cancel_next: k % 5 == 4, pendings: if k % 5 == 4 { 1 } else { 0 }, history: if rng.chance(1, 2) { 0 } else { rng.range(1, 7) as u8 }, pad: 0, second_chain: false, wpp: 0 };
+        let mut case = case;
+        if k % 3 == 1 {
+            case.wpp = rng.range(1, 3);
+            rep.count("chains_whose_write_is_taken_late");
+        }
         rep.count("long_reply_runs");
         rep.max("max_replies_owed_to_one_chain", case.replies.len() as u64);
         check(&case, &mut rep);
@@ -538,7 +559,7 @@ pub fn run(cfg: &Cfg) -> Report {
         let replies = script_for(&kinds, &mut |m| r2.below(m));
         rng = r2;
         let owed_len: usize = replies.iter().map(|r| r.bytes().len()).sum();
-        let case = Case { kinds, replies, trailing: vec![], cuts: random_cuts(&mut rng, owed_len, 3), trailing_later: true, cancel_next: false, pendings: 0, history: if k % 2 == 0 { 0 } else { rng.range(1, 7) as u8 }, pad, second_chain: false };
+        let case = Case { kinds, replies, trailing: vec![], cuts: random_cuts(&mut rng, owed_len, 3), trailing_later: true, cancel_next: false, pendings: 0, history: if k % 2 == 0 { 0 } else { rng.range(1, 7) as u8 }, pad, second_chain: false, wpp: 0 };
         rep.count("big_chains");
         rep.max("max_bytes_of_one_chain", case.kinds.len() as u64 * pad as u64);
         check(&case, &mut rep);
